@@ -51,6 +51,7 @@ pub fn reference_records() -> Vec<fasta::Record> {
     vec![
         fasta::Record::new(Definition::new("sq0", None), Sequence::from(sq0())),
         fasta::Record::new(Definition::new("sq1", None), Sequence::from(sq1())),
+        fasta::Record::new(Definition::new("sqL", None), Sequence::from(sq_long())),
     ]
 }
 
@@ -217,6 +218,7 @@ pub fn docs() -> Vec<AlnDoc> {
         // binary magic number ("BAM\x01" cannot occur in SAM text, "BAM" and "CRAM" can)
         AlnDoc { name: "headerless-read-named-BAMBOO", header: sam::Header::default(), records: vec![headerless_record("BAMBOO")] },
         AlnDoc { name: "headerless-read-named-CRAMPON", header: sam::Header::default(), records: vec![headerless_record("CRAMPON")] },
+        boundary_doc(),
     ]
 }
 
@@ -318,4 +320,90 @@ pub fn doc_log(doc: &AlnDoc, fold_case: bool) -> Vec<String> {
     let mut v = vec![header_key(&doc.header)];
     v.extend(doc.records.iter().map(|r| record_buf_key(r, fold_case)));
     v
+}
+
+// ---------------------------------------------------------------------------------------------
+// representation boundaries
+
+fn unmapped(name: Vec<u8>, data: Vec<(Tag, Value)>) -> RecordBuf {
+    RecordBuf::builder()
+        .set_name(name)
+        .set_flags(Flags::UNMAPPED)
+        .set_sequence(Sequence::from(b"ACGTN".to_vec()))
+        .set_quality_scores(QualityScores::from(vec![20, 21, 22, 23, 2]))
+        .set_data(data.into_iter().collect::<Data>())
+        .build()
+}
+
+fn text(n: usize) -> Vec<u8> {
+    (0..n).map(|i| b"abcdefghijklmnopqrstuvwxyz0123456789"[(i * 5 + n) % 36]).collect()
+}
+
+/// Read names of 1 and 254 bytes (BAM `l_read_name` 2 and 255), `Z` values of 0 / 1 / 255 / 256
+/// bytes and `B` arrays with 0 / 1 / 255 / 256 elements of several subtypes.
+pub fn boundary_doc() -> AlnDoc {
+    let mut records = Vec::new();
+    for (i, n) in [0usize, 1, 255, 256].into_iter().enumerate() {
+        let name = match i {
+            0 => text(1),
+            1 => text(254),
+            _ => format!("b{n}").into_bytes(),
+        };
+        records.push(unmapped(
+            name,
+            vec![
+                (tag(b"XB"), Value::Array(Array::UInt8((0..n).map(|k| k as u8).collect()))),
+                (tag(b"XH"), Value::Array(Array::Int16((0..n).map(|k| k as i16 * 100 - 9000).collect()))),
+                (tag(b"XI"), Value::Array(Array::UInt32((0..n).map(|k| 4_000_000_000 - k as u32).collect()))),
+                (tag(b"XF"), Value::Array(Array::Float((0..n).map(|k| k as f32 * 0.25).collect()))),
+                (tag(b"XZ"), Value::String(text(n).into())),
+            ],
+        ));
+    }
+    AlnDoc { name: "boundary-lengths", header: header_full(), records }
+}
+
+/// Reference for the 65535-operation CIGAR (thorough tier).
+pub fn sq_long() -> Vec<u8> {
+    ref_bases(3, 33_000)
+}
+
+/// A mapped read whose CIGAR has exactly 65535 operations (the largest `n_cigar_op` BAM can
+/// store in place): 1M1I1M1I…1M, 65535 bases, reference span 32768.
+pub fn cigar_doc() -> AlnDoc {
+    let sql = sq_long();
+    let header: sam::Header = format!(
+        "@HD\tVN:1.6\tSO:coordinate\n@SQ\tSN:sq0\tLN:50\tM5:{}\n@SQ\tSN:sq1\tLN:40\tM5:{}\n@SQ\tSN:sqL\tLN:{}\tM5:{}\n",
+        md5_hex(&sq0()),
+        md5_hex(&sq1()),
+        sql.len(),
+        md5_hex(&sql)
+    )
+    .parse()
+    .expect("gdocs: cigar header");
+    let mut ops = Vec::with_capacity(65535);
+    let mut seq = Vec::with_capacity(65535);
+    let mut r = 9usize; // 0-based reference offset of alignment start 10
+    for k in 0..65535usize {
+        if k % 2 == 0 {
+            ops.push(Op::new(Kind::Match, 1));
+            seq.push(sql[r]);
+            r += 1;
+        } else {
+            ops.push(Op::new(Kind::Insertion, 1));
+            seq.push(b"ACGT"[(k / 2) % 4]);
+        }
+    }
+    let qual: Vec<u8> = (0..65535usize).map(|k| (k % 40) as u8 + 2).collect();
+    let rec = RecordBuf::builder()
+        .set_name("c65535")
+        .set_flags(Flags::empty())
+        .set_reference_sequence_id(2)
+        .set_alignment_start(pos(10))
+        .set_mapping_quality(MappingQuality::new(20).unwrap())
+        .set_cigar(Cigar::from(ops))
+        .set_sequence(Sequence::from(seq))
+        .set_quality_scores(QualityScores::from(qual))
+        .build();
+    AlnDoc { name: "cigar-65535-ops", header, records: vec![rec] }
 }
